@@ -5,7 +5,7 @@ the check reported a VIOLATION (and its first replay line) in seeded/RESULTS.jso
 import json, os, subprocess, sys, time, re
 HERE = os.path.dirname(os.path.dirname(os.path.abspath(__file__)))
 SD = os.path.join(HERE, 'seeded')
-WT = '/var/tmp/nmv-seeded-wt'
+WT = os.environ.get('SEEDED_WT', '/var/tmp/nmv-seeded-wt')
 def sh(*a, **k): return subprocess.run(a, capture_output=True, text=True, **k)
 ids = sys.argv[1:] or sorted(d for d in os.listdir(SD) if os.path.isdir(os.path.join(SD, d)))
 res_path = os.path.join(SD, 'RESULTS.json')
